@@ -116,7 +116,11 @@ def limits(db, ctx):
     # the value compared is resolve_edits' return value
     re = db.one("resolve_edits", None)
     ret = re.hir.get("expr")
-    ctx.ob("resolve_edits|returns-length", ret is not None and "cur_len" in render(ret),
+    from ..inline import nf as _nf
+    rl = peel_casts(ret) if ret is not None else {}
+    # the returned value is the running length: the `let mut` local that starts as source.len() (whatever it is called)
+    is_acc = rl.get("k") == "Path" and "mut_init" in rl and _nf(rl["mut_init"]) == "source.len()"
+    ctx.ob("resolve_edits|returns-length", ret is not None and is_acc,
            "resolve_edits returns the rewritten length (`%s`)" % (render(ret) if ret else None), fn=re)
     # u16 casts of offsets in the analysis closure: inventory (bounded by the two guards above)
     g = cg.get(db)
@@ -503,3 +507,11 @@ def no_stale_results(db, ctx):
     from . import C10
     C10.reset_clears_results(db, ctx)
     ctx.floor(1)
+
+
+@rule("C03.node-span-units", "nodes handed to the lattice by OOV providers have their ends in code points of the normalised text (a byte offset or "
+                             "byte length used as a code-point position puts the node past the lattice and Lattice::insert indexes out of bounds) — "
+                             "re-evaluation of C13.units")
+def node_span_units(db, ctx):
+    from . import C13
+    C13.oov_units(db, ctx)
